@@ -35,30 +35,34 @@ MORE = {
         tech="contract-based deductive verification (Verus): value-preserving-restore contract (counts, frame, tree equality)",
         ref="4/C04"),
     "C05": dict(
-        text="Partial proof (Verus), component 'inline small-integer path lookup' only: traverse_path (byte walk) and traverse_path_fast "
-             "(inline walk) are both proved equal to one specification (tree_walk / path_cost over the integer value of the path), a lemma "
-             "shows the canonical bytes of a small integer have the leading zero exactly when the inline walk charges for it, and "
-             "eval_pair's path branch is verified against the same postconditions in BOTH builds (default and no-fastpath: the unit is "
-             "assembled twice from the cfg-evaluated source). The bignum fast paths in more_ops.rs, the precomputed sha256 table, counters "
-             "and pre-eval are NOT under contract (build-differential, outside this technique's reach here).",
-        note=TB + "Atom::as_ref assumed to return the atom's bytes (no-fastpath variant).",
+        text="Partial proof (Verus), fast paths: four of the five `no-fastpath` gates and the path-lookup fast path are verified in BOTH builds "
+             "against one contract each (every unit that contains a gate is assembled twice from the cfg-evaluated source): inline "
+             "small-integer path lookup (traverse_path_fast == traverse_path on the canonical bytes, eval_pair), the precomputed-digest path of "
+             "op_sha256 (table checked completely against hashlib on every run), the small-integer comparison of op_gr, the inline-operand arm of "
+             "op_multiply. The u64/i64 fast paths of op_add and op_subtract are out of reach (closure capturing &mut locals, rand), and the "
+             "counters / pre-eval instrumentation builds are not under contract (build-differential, outside this technique's reach here).",
+        note=TB + "Atom::as_ref assumed to return the atom's bytes (no-fastpath variant); bignum products / magnitudes are library assumptions.",
         tech="contract-based deductive verification (Verus): two implementations against one spec function; unit assembled under two feature sets",
-        ref="4/C05"),
+        ref="4/C05, 11.1, 11.7, 11.11"),
     "C10": dict(
-        text="Partial proof (Verus) for the operators under contract: if, cons, first, rest, listp, raise, eq charge exactly their documented "
-             "constants / per-byte formulas and succeed exactly on well-formed argument lists; unknown operators charge the opcode rule "
-             "(C09); uint_atom decodes exactly the documented operand domain; the path lookup charges 44 + 4 per leading zero byte + 4 per "
-             "bit. The arithmetic, bit, string-hash, BLS/secp and sha256tree operators are NOT yet under contract.",
+        text="Partial proof (Verus) for the operators under contract: if, cons, first, rest, listp, raise, eq, not, any, all, strlen, concat, "
+             "sha256, sha256tree (per pair and per byte over the fully expanded tree, whether or not sub-trees are shared), div, divmod, mod, "
+             "gr (>), multiply, secp256k1/r1 verify charge exactly their documented constants / formulas over argument sizes, accumulator "
+             "magnitudes and result size, in both cost models; unknown operators charge the opcode rule (C09); uint_atom decodes exactly the "
+             "documented operand domain; the path lookup charges 44 + 4 per leading zero byte + 4 per bit. NOT under contract: add, subtract, "
+             "the bit operators (logand/logior/logxor/lognot/ash/lsh), gr_bytes, substr, modpow, point_add, pubkey_for_exp, coinid, the BLS and "
+             "keccak operators.",
         note=TB,
-        tech="contract-based deductive verification (Verus): exact-cost and iff-success postconditions per operator",
-        ref="4/C10"),
+        tech="contract-based deductive verification (Verus): exact-cost and success-condition postconditions per operator",
+        ref="4/C10, 11.1, 11.7, 11.9, 11.11"),
     "C11": dict(
-        text="Partial proof (Verus) for the operators under contract (if, cons, first, rest, listp, raise, eq, unknown): the value clause of "
-             "each contract does not mention the cost-model flag, so a call that succeeds under both models returns the same tree. "
-             "Operators not under contract are outside the claim.",
+        text="Partial proof (Verus): (1) for the operators under contract (see C10) the value clause of each contract does not mention the "
+             "cost-model flag, so a call that succeeds under both models returns the same tree; (2) ChiaDialect::op equals the operator table, "
+             "and a lemma on the table shows NEW_COST_MODEL never changes which operator an opcode selects (it can only lift the DISABLE_OP "
+             "ban on modpow). Operators not under contract are outside the claim.",
         note=TB,
-        tech="contract-based deductive verification (Verus): value postconditions independent of the flags argument",
-        ref="4/C11"),
+        tech="contract-based deductive verification (Verus): value postconditions independent of the flags argument; routing lemma over the dispatch table",
+        ref="4/C11, 11.1"),
     "C07": dict(
         text="Partial proof (Verus): (1) ChiaDialect::op is proved equal to an operator table written as a specification, and lemmas on that "
              "table show that any subset of the restriction flags (NO_UNKNOWN_OPS, CANONICAL_INTS, DISABLE_OP, LIMIT_SOFTFORK, LIMITS, "
